@@ -93,7 +93,15 @@ class SymStr(str):
     casefold = upper
 
     def strip(self, *a):
-        raise C.Unsupported('strip() of symbolic string')
+        if a and a[0] is not None:
+            raise C.Unsupported('strip(chars) of symbolic string')
+        if getattr(self, 'z', None) is None:
+            raise C.Unsupported('strip() of a derived symbolic string')
+        ws = _WS()
+        edge = z3.InRe(self.z, z3.Union(z3.Concat(ws, _FULL()), z3.Concat(_FULL(), ws)))
+        if C.reachable(pc=[*C.CTX.pc, C.B('z3', edge)]) == 'unsat':
+            return self  # no leading/trailing white space possible on this path: strip() is the identity
+        return SymStripped(self)
 
     def splitlines(self, *a):
         raise C.Unsupported('splitlines() of symbolic string')
@@ -150,6 +158,29 @@ class SymSub(SymStr):
         self.sname = f'{base.sname}[{a}:]'
         self.idx = SymStr._n
         _REG[self.idx] = self
+        return self
+
+
+def _WS():
+    return z3.Union(*[z3.Re(z3.StringVal(c)) for c in ' \t\n\r\x0b\x0c'])
+
+
+class SymStripped(SymStr):
+    """s.strip(): a fresh string t with s = ws1 + t + ws2 (path constraint), t without white space at its ends."""
+
+    def __new__(cls, base):
+        SymStr._n += 1
+        self = str.__new__(cls, f'\x00S{SymStr._n}\x00')
+        self.sname = f'{base.sname}.strip()'
+        self.idx = SymStr._n
+        self.z = z3.String(f'strip!{self.idx}')
+        self.root = getattr(base, 'root', base)
+        _REG[self.idx] = self
+        a, b = z3.String(f'lws!{self.idx}'), z3.String(f'rws!{self.idx}')
+        ws, one = _WS(), z3.AllChar(z3.ReSort(z3.StringSort()))
+        notws = z3.Intersect(one, z3.Complement(ws))
+        inner = z3.Union(z3.Re(z3.StringVal('')), notws, z3.Concat(notws, _FULL(), notws))
+        C.CTX.pc.append(C.B('z3', z3.And(base.z == z3.Concat(a, self.z, b), z3.InRe(a, z3.Star(ws)), z3.InRe(b, z3.Star(ws)), z3.InRe(self.z, inner))))
         return self
 
 
